@@ -29,6 +29,11 @@ PKGS = {"bt": "./checks/bt", "gcs": "./checks/gcs", "lockmap": "./checks/lockmap
 NCPU = os.cpu_count() or 4
 
 
+# Runs against a patched checkout (VERIF_REPO, seeded-change evaluation) write their evidence and the failing cases
+# they find below VERIF_EVIDENCE_ROOT, so that /verif/evidence and /verif/replays only ever describe /repo itself.
+OUTROOT = os.environ.get("VERIF_EVIDENCE_ROOT") or ROOT
+
+
 def log(*a):
     print(*a, flush=True)
 
@@ -240,16 +245,16 @@ def merge_evidence(prop, tier, seed, outdir, wall, violations, notes):
         cov["notes"] = notes
     ev = dict(property_id=prop, tier=tier, seed=seed, level=spec["level"], coverage=cov,
               assumptions=spec.get("assumptions", []), wall_s=round(wall, 2), violations=violations)
-    os.makedirs(os.path.join(ROOT, "evidence"), exist_ok=True)
-    tmp = os.path.join(ROOT, "evidence", prop + ".json.tmp")
+    os.makedirs(os.path.join(OUTROOT, "evidence"), exist_ok=True)
+    tmp = os.path.join(OUTROOT, "evidence", prop + ".json.tmp")
     json.dump(ev, open(tmp, "w"), indent=1)
-    os.replace(tmp, os.path.join(ROOT, "evidence", prop + ".json"))
+    os.replace(tmp, os.path.join(OUTROOT, "evidence", prop + ".json"))
 
 
 def save_replay(prop, src):
     raw = open(src, "rb").read()
     h = hashlib.sha1(raw).hexdigest()[:12]
-    d = os.path.join(ROOT, "replays", prop)
+    d = os.path.join(OUTROOT, "replays", prop)
     os.makedirs(d, exist_ok=True)
     dst = os.path.join(d, "new-%s.json" % h)
     if not os.path.exists(dst):
@@ -369,7 +374,8 @@ def check(prop, tier):
                     crashers = sorted(os.listdir(cdir)) if os.path.isdir(cdir) else []
                     if rc != 0 and crashers:
                         for cf_ in crashers:
-                            dst = os.path.join(ROOT, "replays", prop, "fuzz-%s-%s" % (u["test"], cf_))
+                            os.makedirs(os.path.join(OUTROOT, "replays", prop), exist_ok=True)
+                            dst = os.path.join(OUTROOT, "replays", prop, "fuzz-%s-%s" % (u["test"], cf_))
                             os.makedirs(os.path.dirname(dst), exist_ok=True)
                             shutil.copy(os.path.join(cdir, cf_), dst)
                             violations.append((dst, "native fuzz crasher: " + tail(logpath, 14)))
@@ -413,7 +419,7 @@ def check(prop, tier):
             for s in inconclusive:
                 log("INCONCLUSIVE " + s)
             return 2
-        ev = json.load(open(os.path.join(ROOT, "evidence", prop + ".json")))
+        ev = json.load(open(os.path.join(OUTROOT, "evidence", prop + ".json")))
         log("OK property=%s tier=%s evaluations=%d distinct_nontrivial=%d wall=%.1fs" % (
             prop, tier, ev["coverage"]["evaluations"], ev["coverage"]["distinct_nontrivial"], wall))
         return 0
